@@ -184,7 +184,7 @@ def r52(db, ctx):
         Hk = L.inner[0]
         Lk = E.loops[Hk]
         probs = []
-        if not (Lk.iter and Lk.iter[0] == 'range' and norm(Lk.iter[1]) == ('k', 0) and 'USIZE' in X.canon(Lk.iter[2])):
+        if not (Lk.iter and Lk.iter[0] == 'range' and norm(Lk.iter[1]) == ('k', 0) and common.is_usize_const(Lk.iter[2])):
             probs.append(f'symbol loop runs over {Lk.iter}, expected 0..K')
         a_elem = ('elem', Lk.iter, Hk)
         vecs = {l: v for l, v in Lk.carried.items() if isinstance(v, Vec)}
@@ -302,7 +302,14 @@ def r53_54(db, ctx):
                 for st in blk['stmts']:
                     if st['k'] == 'assign' and st['rv']['k'] == 'agg' and st['rv'].get('adt', '').endswith('InvalidSymbol'):
                         errv = norm(R.operand(st['rv']['ops'][0]))
-            first = errv is not None and 'trailing_zeros' in X.canon(errv) and 'arg1' in X.canon(errv)
+            first = False
+            if errv is not None:
+                ie = m(('idx', ('p', 1), '$k'), errv) or m(('call~', '::index', (('p', 1), '$k')), errv)
+                if ie is not None:
+                    lk = X.lin(ie['$k'])
+                    atoms = {k_: v_ for k_, v_ in lk.items() if k_ != ''}
+                    # seq[i + trailing_zeros(mask)]: exactly the block offset plus the index of the lowest set lane, no constant
+                    first = lk.get('', 0) == 0 and len(atoms) == 2 and all(v_ == 1 for v_ in atoms.values()) and sum('trailing_zeros' in k_ for k_ in atoms) == 1
             if good2 and first:
                 ctx.ok('R5.3', f, 'per-block test dominates Ok; the flagged side reports seq[i + trailing_zeros(mask)] (first unknown lane)', ['early return'])
             else:
@@ -333,7 +340,7 @@ def r53_54(db, ctx):
             b2 = m(('call~', '::index_mut', (('p', 2), ('agg', '_', ('$i',)))), a2)
             rels = G.relations(f, R, bi)
             if b1 is not None and b2 is not None and b1['$i'] == b2['$i'] and b1['$i'][0] == 'v' and f.local_name(b1['$i'][1]) == 'i':
-                lt = G.holds(rels, 'lt', lambda e: norm(e) == b1['$i'], lambda e: 'len' in X.canon(e))
+                lt = G.holds(rels, 'lt', lambda e: norm(e) == b1['$i'], lambda e: common.is_len_of(e))
                 # result propagated: a Try::branch on the call result
                 tb = t.get('target')
                 propagated = any((f.callee_short(t2) or '').endswith('Try::branch') and f.dominates(bi, b2_) for b2_, t2 in f.calls())
